@@ -261,6 +261,23 @@ class CliT:
         res['task'] = self.sched.spawn(run, name='cli-' + name)
         return res
 
+    def call_seq(self, name, arglist):
+        """One application task issuing the calls one after the other."""
+        res = {'done': False, 'exc': None, 'name': name}
+
+        def run():
+            try:
+                for a in arglist:
+                    getattr(self.c, name)(a)
+            except vsched.TaskKilled:
+                raise
+            except BaseException as e:
+                res['exc'] = e
+            finally:
+                res['done'] = True
+        res['task'] = self.sched.spawn(run, name='cli-seq-' + name)
+        return res
+
     def restore(self):
         ec, bc = self.ec, self.bc
         (ec.threading, ec.queue, ec.time, ec.requests, ec.websocket,
@@ -457,6 +474,23 @@ class CliA:
             finally:
                 res['done'] = True
                 res['t_end'] = self.loop._vnow
+        res['task'] = self.loop.create_task(run())
+        return res
+
+    def call_seq(self, name, arglist):
+        import asyncio
+        res = {'done': False, 'exc': None, 'name': name}
+
+        async def run():
+            try:
+                for a in arglist:
+                    await getattr(self.c, name)(a)
+            except asyncio.CancelledError:
+                raise
+            except BaseException as e:
+                res['exc'] = e
+            finally:
+                res['done'] = True
         res['task'] = self.loop.create_task(run())
         return res
 
@@ -825,3 +859,356 @@ class WorldA:
 
 def make_world(kind, **kw):
     return WorldT(**kw) if kind == 'T' else WorldA(**kw)
+
+
+# --------------------------------------------------------------------------
+# Real servers as peers (C10): the fake transports call into simT / simA
+# --------------------------------------------------------------------------
+def _split(url):
+    u = urllib.parse.urlsplit(url)
+    return u, u.query
+
+
+class PeerT:
+    """Threaded client <-> threaded server under one scheduler."""
+    def __init__(self, sim):
+        self.sim = sim
+        self.sched = sim.sched
+
+    def now(self):
+        return self.sched.now
+
+    def http(self, method, url, headers, body, timeout):
+        u, q = _split(url)
+        if isinstance(body, str):
+            body = body.encode('utf-8')
+        ev = vsched.VEvent(self.sched)
+        hd = {'Host': u.netloc}
+        hd.update(headers or {})
+        t = self.sim.request(method, q, hd, body=body, path=u.path)
+        if t.done:
+            ev.set()
+        else:
+            t.on_done = lambda tk: ev.set()
+        ev.wait(timeout)
+        if not t.done:
+            t.abandoned = True
+            raise PeerRefused('read timed out')
+        if t.exc is not None:
+            raise PeerRefused('server error %r' % (t.exc,))
+        return Resp(t.code, t.body or b'')
+
+    def ws_connect(self, url, headers, timeout):
+        u, q = _split(url)
+        ws, t = self.sim.ws_request(q, dict(headers or {}, Host=u.netloc))
+        ev = vsched.VEvent(self.sched)
+        inbox = vsched.VQueue(self.sched)
+        ws.on_accept = lambda c: ev.set()
+        ws.on_frame = lambda c, fr: inbox.put(fr)
+        ws.on_close = lambda c: inbox.put(CLOSED)
+        if t.done or ws.accepted:
+            ev.set()
+        else:
+            t.on_done = lambda tk: ev.set()
+        ev.wait(timeout)
+        if not ws.accepted:
+            raise PeerRefused('websocket handshake refused (%r)' % (
+                t.status,))
+        return PeerTConn(ws, inbox)
+
+
+class PeerTConn:
+    def __init__(self, ws, inbox):
+        self.ws = ws
+        self.inbox = inbox
+
+    def send(self, frame):
+        if self.ws.server_closed:
+            raise WsClosed()
+        self.ws.send(frame)
+
+    def recv(self, timeout):
+        try:
+            item = self.inbox.get(timeout=timeout)
+        except vsched.VQueue.Empty:
+            raise WsTimeout()
+        if item is CLOSED:
+            self.inbox.put(CLOSED)
+            raise WsClosed()
+        return item
+
+    def close(self):
+        self.ws.close()
+        self.inbox.put(CLOSED)
+
+
+class PeerA:
+    """Asyncio client <-> asyncio server (real ASGI adapter) on one loop."""
+    def __init__(self, sim):
+        self.sim = sim
+        self.loop = sim.loop
+
+    def now(self):
+        return self.loop._vnow
+
+    async def ahttp(self, method, url, headers, body, timeout):
+        import asyncio
+        u, q = _split(url)
+        if isinstance(body, str):
+            body = body.encode('utf-8')
+        ev = asyncio.Event()
+        hd = {'Host': u.netloc}
+        hd.update(headers or {})
+        t = self.sim.request(method, q, hd, body=body, path=u.path)
+        t.on_done = lambda tk: ev.set()
+        if t.done:
+            ev.set()
+        try:
+            await ev.wait()
+        except asyncio.CancelledError:
+            t.abandoned = True
+            if getattr(t, 'gone', None) is not None:
+                t.gone.set()        # the ASGI server reports http.disconnect
+            raise
+        if t.exc is not None:
+            raise PeerRefused('server error %r' % (t.exc,))
+        return Resp(t.code, t.body or b'')
+
+    async def aws_connect(self, url, headers, timeout):
+        import asyncio
+        u, q = _split(url)
+        ws, t = self.sim.ws_request(q, dict(headers or {}, Host=u.netloc))
+        ev = asyncio.Event()
+        inbox = asyncio.Queue()
+        ws.on_accept = lambda c: ev.set()
+        ws.on_frame = lambda c, fr: inbox.put_nowait(fr)
+        ws.on_close = lambda c: inbox.put_nowait(CLOSED)
+        t.on_done = lambda tk: ev.set()
+        if t.done or ws.accepted:
+            ev.set()
+        await ev.wait()
+        if not ws.accepted:
+            raise PeerRefused('websocket handshake refused')
+        return PeerAConn(ws, inbox)
+
+
+class PeerAConn:
+    def __init__(self, ws, inbox):
+        self.ws = ws
+        self.inbox = inbox
+
+    async def asend(self, frame):
+        if self.ws.server_closed:
+            raise WsClosed()
+        self.ws.send(frame)
+
+    async def arecv(self):
+        item = await self.inbox.get()
+        if item is CLOSED:
+            self.inbox.put_nowait(CLOSED)
+            raise WsClosed()
+        return item
+
+    async def aclose(self):
+        self.ws.close()
+        self.inbox.put_nowait(CLOSED)
+
+
+class PairTT:
+    kind = 'TT'
+
+    def __init__(self, server_kwargs=None, policy='fifo', seed=0,
+                 yield_prob=0.0, **client_kwargs):
+        from vf.simt import SimT
+        self.sim = SimT(server_kwargs, policy=policy, seed=seed,
+                        yield_prob=yield_prob)
+        self.sched = self.sim.sched
+        self.peer = PeerT(self.sim)
+        self.cli = CliT(self.sched, self.peer, **client_kwargs)
+
+    now = property(lambda self: self.sched.now)
+
+    def quiesce(self):
+        self.sched.quiesce()
+
+    def advance(self, dt):
+        self.sched.advance(dt)
+
+    def run_until(self, pred, horizon):
+        return self.sched.run_until(pred, horizon)
+
+    def teardown(self):
+        z = self.sim.teardown()
+        self.cli.restore()
+        return z
+
+
+class PairAA:
+    kind = 'AA'
+
+    def __init__(self, server_kwargs=None, **client_kwargs):
+        from vf.sima import SimA
+        for k in ('policy', 'seed', 'yield_prob'):
+            client_kwargs.pop(k, None)
+        self.sim = SimA(server_kwargs)
+        self.loop = self.sim.loop
+        self.peer = PeerA(self.sim)
+        self.cli = CliA(self.loop, self.peer, **client_kwargs)
+
+    now = property(lambda self: self.loop._vnow)
+
+    def quiesce(self):
+        self.loop.quiesce()
+
+    def advance(self, dt):
+        self.loop.advance(dt)
+
+    def run_until(self, pred, horizon):
+        return self.loop.run_until(pred, horizon)
+
+    def teardown(self):
+        z = self.sim.teardown()
+        self.cli.restore()
+        return z
+
+
+# --------------------------------------------------------------------------
+# bridge: an asyncio loop running as ONE task of the thread scheduler, so a
+# threaded party and an asyncio party share one virtual clock and scheduler
+# --------------------------------------------------------------------------
+def make_bridge_loop(sched):
+    from vf import vloop
+
+    class BridgeLoop(vloop.VLoop):
+        def __init__(self):
+            self._sched = sched
+            super().__init__()
+            self.wake = vsched.VEvent(sched)
+            self.stopping = False
+
+        @property
+        def _vnow(self):
+            return self._sched.now
+
+        @_vnow.setter
+        def _vnow(self, v):
+            pass
+
+        def call_soon(self, callback, *args, context=None):
+            h = super().call_soon(callback, *args, context=context)
+            self.wake.flag = True
+            ws, self.wake.waiters = self.wake.waiters, []
+            for w_ in ws:
+                self._sched._wake(w_, 'signal')
+            return h
+
+        def call_at(self, when, callback, *args, context=None):
+            h = super().call_at(when, callback, *args, context=context)
+            self.wake.flag = True
+            ws, self.wake.waiters = self.wake.waiters, []
+            for w_ in ws:
+                self._sched._wake(w_, 'signal')
+            return h
+
+        def run_as_task(self):
+            while not self.stopping:
+                self.quiesce()
+                self.wake.flag = False
+                if self.busy():
+                    continue
+                nt = self.next_timer()
+                self.wake.wait(None if nt is None
+                               else max(0.0, nt - self._sched.now))
+    loop = BridgeLoop()
+    loop.task = sched.spawn(loop.run_as_task, name='asyncio-loop')
+    return loop
+
+
+class PeerTA(PeerT):
+    """Threaded client -> asyncio server living in a bridge loop."""
+    def __init__(self, sim, sched):
+        self.sim = sim
+        self.sched = sched
+
+
+class PeerAT(PeerA):
+    """Asyncio client (in a bridge loop) -> threaded server."""
+    def __init__(self, sim, loop):
+        self.sim = sim
+        self.loop = loop
+
+
+class PairTA:
+    """real Client (threads) <-> real AsyncServer (bridge loop)."""
+    kind = 'TA'
+
+    def __init__(self, server_kwargs=None, policy='fifo', seed=0,
+                 yield_prob=0.0, **client_kwargs):
+        from vf.sima import SimA
+        self.sched = vsched.Sched(policy, seed, None, 0.0)
+        self.loop = make_bridge_loop(self.sched)
+        self.sim = SimA(server_kwargs, loop=self.loop)
+        self.peer = PeerTA(self.sim, self.sched)
+        self.cli = CliT(self.sched, self.peer, **client_kwargs)
+
+    now = property(lambda self: self.sched.now)
+
+    def quiesce(self):
+        self.sched.quiesce()
+
+    def advance(self, dt):
+        self.sched.advance(dt)
+
+    def run_until(self, pred, horizon):
+        return self.sched.run_until(pred, horizon)
+
+    def teardown(self):
+        self.loop.stopping = True
+        z = self.sched.kill_all()
+        try:
+            self.sim.asock.time = self.sim._old_time
+            for t in self.loop.pending_tasks():
+                t.cancel()
+        except Exception:
+            pass
+        self.cli.restore()
+        return z
+
+
+class PairAT:
+    """real AsyncClient (bridge loop) <-> real Server (threads)."""
+    kind = 'AT'
+
+    def __init__(self, server_kwargs=None, policy='fifo', seed=0,
+                 yield_prob=0.0, **client_kwargs):
+        from vf.simt import SimT
+        self.sched = vsched.Sched(policy, seed, None, 0.0)
+        self.sim = SimT(server_kwargs, sched=self.sched)
+        self.loop = make_bridge_loop(self.sched)
+        self.peer = PeerAT(self.sim, self.loop)
+        self.cli = CliA(self.loop, self.peer, **client_kwargs)
+
+    now = property(lambda self: self.sched.now)
+
+    def quiesce(self):
+        self.sched.quiesce()
+
+    def advance(self, dt):
+        self.sched.advance(dt)
+
+    def run_until(self, pred, horizon):
+        return self.sched.run_until(pred, horizon)
+
+    def teardown(self):
+        self.loop.stopping = True
+        z = self.sim.teardown()
+        try:
+            for t in self.loop.pending_tasks():
+                t.cancel()
+        except Exception:
+            pass
+        self.cli.restore()
+        return z
+
+
+PAIRS = {'TT': PairTT, 'AA': PairAA, 'TA': PairTA, 'AT': PairAT}
